@@ -19,6 +19,7 @@ from ..flow import Engine, Tracker, TooManyStates
 from ..util import base_var, is_null
 from ..failflow import failure_value_kind, compute_fail_summaries, EXT_FAIL_NULL
 from .r41_dangling import destructors, path_of
+from .r18_atomic import LATE_FAILURE_FILES
 
 PROPS = ("C11", "C20")
 
@@ -151,8 +152,8 @@ def run(P, tier="quick"):
         if f.cfg is None or f.body is None:
             continue
         kind = failure_value_kind(f)
-        if kind not in ("minus1", "null"):
-            continue
+        if kind not in ("minus1", "null") or f.file in LATE_FAILURE_FILES:
+            continue        # (loaders build the object while parsing: their failures are judged by R18's "late failure" clause)
         rel = [c for c in f.calls() if c.callee in dtors and c.args() and c.args()[0].strip().k == "MemberExpr"]
         if not rel:
             continue
